@@ -71,7 +71,7 @@ fn keyframe_sets() -> Vec<Vec<Kf>> {
 }
 
 fn times(c: &Timing) -> Vec<f32> {
-    let mut v = vec![0.0, f32::MIN_POSITIVE, 1e30, f32::MAX, c.delay];
+    let mut v = vec![0.0, -0.0, f32::MIN_POSITIVE, 1e30, f32::MAX, c.delay];
     let reps: f64 = match c.rep {
         Rep::None => 0.0,
         Rep::Times(n) => n as f64,
@@ -445,7 +445,7 @@ pub fn run(run: Run) -> ! {
     cov.insert("traces_validated_against_impl".into(), json!(debug_compared));
     cov.insert("evaluations".into(), json!(acc.ops));
     cov.insert("distinct_nontrivial".into(), json!(items.len()));
-    cov.insert("rule".into(), json!("cycle in {1.4e-45 and 1e-40 (subnormal),MIN_POSITIVE,1e-30,1e-3,1,1e3,1e30,2e38,f32::MAX} x delay in {0,1e-30,1,1e30} x repeat in {None,Times 0,1,2^24,2^24+1,u32::MAX-1,u32::MAX,Infinite} x reverse, restricted to configurations whose total duration is <= f32::MAX (validity bound), x 17 keyframe sets (one resting at exactly +-0 between keyframes; three with a cluster of keyframes on consecutive f32 values inserted out of order; two with keyframes a subnormal distance apart: positions 0 / 1e-40 and 0 / 1.4e-45; two with extreme finite values: +-f32::MAX, +-3e38, i32::MIN..2147483520; three with 257, 513 and 300 keyframes, the last alternating between +-1e36 / +-2e9); operations: build, duration, delay, cycle_duration, repeat, start_with, update (plain and after start_with) at {0, MIN_POSITIVE, delay, every phase boundary +-0,1,2 ulp incl. the last cycles, 32 points inside the first two cycles, 1e30, f32::MAX}; the empty merged timeline (metadata finite); a rotation family (struct with Quat, DQuat and Vec3 properties: every ordered pair of 15 unit quaternions - equal, opposite sign, w = 0, orthogonal - as two keyframes x easings Linear/InOut/OutBack x a 1/16 time grid); animator build, advance(dt) for dt in {0,2^-9,1,1e10,1e19,1e20,f32::MAX} each twice, is_ended, set_state; every operation under catch_unwind; oracle: no panic, finite values, values within the keyframe range, and identical result digests from a debug and a release build of the same harness; states = (configuration, keyframe set) cases, transitions = operations"));
+    cov.insert("rule".into(), json!("cycle in {1.4e-45 and 1e-40 (subnormal),MIN_POSITIVE,1e-30,1e-3,1,1e3,1e30,2e38,f32::MAX} x delay in {0,1e-30,1,1e30} x repeat in {None,Times 0,1,2^24,2^24+1,u32::MAX-1,u32::MAX,Infinite} x reverse, restricted to configurations whose total duration is <= f32::MAX (validity bound), x 17 keyframe sets (one resting at exactly +-0 between keyframes; three with a cluster of keyframes on consecutive f32 values inserted out of order; two with keyframes a subnormal distance apart: positions 0 / 1e-40 and 0 / 1.4e-45; two with extreme finite values: +-f32::MAX, +-3e38, i32::MIN..2147483520; three with 257, 513 and 300 keyframes, the last alternating between +-1e36 / +-2e9); operations: build, duration, delay, cycle_duration, repeat, start_with, update (plain and after start_with) at {0, -0.0 (a finite time that is >= 0), MIN_POSITIVE, delay, every phase boundary +-0,1,2 ulp incl. the last cycles, 32 points inside the first two cycles, 1e30, f32::MAX}; the empty merged timeline (metadata finite); a rotation family (struct with Quat, DQuat and Vec3 properties: every ordered pair of 15 unit quaternions - equal, opposite sign, w = 0, orthogonal - as two keyframes x easings Linear/InOut/OutBack x a 1/16 time grid); animator build, advance(dt) for dt in {0,2^-9,1,1e10,1e19,1e20,f32::MAX} each twice, is_ended, set_state; every operation under catch_unwind; oracle: no panic, finite values, values within the keyframe range, and identical result digests from a debug and a release build of the same harness; states = (configuration, keyframe set) cases, transitions = operations"));
     cov.insert("exhaustive".into(), json!(true));
     cov.insert("debug_release_cases_compared".into(), json!(debug_compared));
     cov.insert("samples".into(), json!([{"timing": cfgs[cfgs.len() / 2].to_json(), "times": times(&cfgs[cfgs.len() / 2]).iter().map(|t| fj(*t)).collect::<Vec<_>>(), "advances": ADVANCES.iter().map(|t| fj(*t)).collect::<Vec<_>>()}]));
